@@ -119,6 +119,12 @@ func (g *gen) genCols() []Col {
 		}
 		cols = append(cols, c)
 	}
+	if len(cols) > 1 && g.r.Chance(0.2) {
+		// the tag column need not come first: a table may start with a VARCHAR,
+		// a BOOLEAN or a BIGINT column
+		j := 1 + g.r.Intn(len(cols)-1)
+		cols[0], cols[j] = cols[j], cols[0]
+	}
 	return cols
 }
 
@@ -204,7 +210,8 @@ func (g *gen) genRow(db string, t *MTable, text bool) []Val {
 	tag := g.tags[key]
 	g.tags[key] = tag + 1
 	vals := make([]Val, len(t.Cols))
-	vals[0] = Int(tag)
+	tagIdx := t.ColIdx("k")
+	vals[tagIdx] = Int(tag)
 	// size budget: keep the encoded row within the limit
 	fixed := 0
 	nvar := 0
@@ -223,7 +230,10 @@ func (g *gen) genRow(db string, t *MTable, text bool) []Val {
 		}
 	}
 	budget := MaxRowBytes - fixed
-	for i := 1; i < len(t.Cols); i++ {
+	for i := 0; i < len(t.Cols); i++ {
+		if i == tagIdx {
+			continue
+		}
 		c := t.Cols[i]
 		b := 0
 		if c.Type == TVarchar {
@@ -236,7 +246,7 @@ func (g *gen) genRow(db string, t *MTable, text bool) []Val {
 	if nvar > 0 && g.pf.Values != "plain" && g.r.Chance(0.06) {
 		targets := []int{102, 103, 104, 127, 128, 230, 231, 232, 255, 256, 257, 358, 359, 360, 399}
 		want := targets[g.r.Intn(len(targets))]
-		for i := 1; i < len(t.Cols); i++ {
+		for i := 0; i < len(t.Cols); i++ {
 			if t.Cols[i].Type != TVarchar {
 				continue
 			}
@@ -262,7 +272,7 @@ func (g *gen) genRow(db string, t *MTable, text bool) []Val {
 	}
 	// boundary rows: exactly at the limit (fat plans: every row within 8 bytes of it)
 	if (g.pf.Values == "extreme" && nvar > 0 && g.r.Chance(0.15)) || (g.pf.fat && nvar > 0) {
-		for i := 1; i < len(t.Cols); i++ {
+		for i := 0; i < len(t.Cols); i++ {
 			if t.Cols[i].Type == TVarchar {
 				if vals[i].IsNull() {
 					vals[i] = Str("")
@@ -374,7 +384,10 @@ func (g *gen) stmtCreate() Stmt {
 	}
 	if len(st.Cols) > 1 && g.r.Chance(0.04) {
 		// a column name that makes its catalog row exactly as long as the limit allows (or a little shorter)
-		i := 1 + g.r.Intn(len(st.Cols)-1)
+		i := g.r.Intn(len(st.Cols))
+		for st.Cols[i].Name == "k" {
+			i = g.r.Intn(len(st.Cols))
+		}
 		st.Cols[i].Name += strings.Repeat("x", MaxRowBytes-20-len(st.Table)-len(st.Cols[i].Name)-g.r.Intn(3)*g.r.Intn(60))
 	}
 	return st
@@ -387,9 +400,10 @@ func (g *gen) stmtInsert(db *MDB, t *MTable, nrows int) Stmt {
 	sub := len(t.Cols) > 1 && g.r.Chance(0.25)
 	var idxs []int
 	if sub {
-		idxs = []int{0}
-		for i := 1; i < len(t.Cols); i++ {
-			if g.r.Chance(0.5) {
+		ti := t.ColIdx("k")
+		idxs = []int{ti}
+		for i := 0; i < len(t.Cols); i++ {
+			if i != ti && g.r.Chance(0.5) {
 				idxs = append(idxs, i)
 			}
 		}
@@ -437,8 +451,10 @@ func (g *gen) stmtUpdate(db *MDB, t *MTable, small bool) Stmt {
 	s := Stmt{Kind: KUpdate, Table: t.Name, Where: g.genWhere(db.Name, t, small), ViaText: text}
 	// never update the tag column
 	var cand []int
-	for i := 1; i < len(t.Cols); i++ {
-		cand = append(cand, i)
+	for i := 0; i < len(t.Cols); i++ {
+		if i != t.ColIdx("k") {
+			cand = append(cand, i)
+		}
 	}
 	if len(cand) == 0 {
 		// only the tag column: set it to itself for one row
@@ -616,7 +632,7 @@ func (g *gen) stmtFail(db *MDB, t *MTable) Stmt {
 			}
 			var ints []int
 			for i, c := range t.Cols {
-				if c.Type == TInt && i > 0 {
+				if c.Type == TInt && i != t.ColIdx("k") {
 					ints = append(ints, i)
 				}
 			}
@@ -624,7 +640,7 @@ func (g *gen) stmtFail(db *MDB, t *MTable) Stmt {
 				continue
 			}
 			r0 := t.Rows[g.r.Intn(len(t.Rows))]
-			return Stmt{Kind: KUpdate, Table: t.Name, Where: &Cond{Cmps: []Cmp{{"k", "=", r0.Vals[0]}}},
+			return Stmt{Kind: KUpdate, Table: t.Name, Where: &Cond{Cmps: []Cmp{{"k", "=", r0.Vals[t.ColIdx("k")]}}},
 				Set: []SetItem{{t.Cols[ints[g.r.Intn(len(ints))]].Name, outOfInt32[g.r.Intn(len(outOfInt32))]}}}
 		case "upd-size", "upd-type":
 			if len(t.Rows) == 0 {
@@ -632,7 +648,7 @@ func (g *gen) stmtFail(db *MDB, t *MTable) Stmt {
 			}
 			vi := -1
 			for i, c := range t.Cols {
-				if i > 0 && (kind == "upd-type" || c.Type == TVarchar) {
+				if i != t.ColIdx("k") && (kind == "upd-type" || c.Type == TVarchar) {
 					vi = i
 				}
 			}
@@ -641,9 +657,9 @@ func (g *gen) stmtFail(db *MDB, t *MTable) Stmt {
 			}
 			// which rows: a single row unless failing at a later row is allowed
 			r0 := t.Rows[g.r.Intn(len(t.Rows))]
-			w := &Cond{Cmps: []Cmp{{"k", "=", r0.Vals[0]}}}
+			w := &Cond{Cmps: []Cmp{{"k", "=", r0.Vals[t.ColIdx("k")]}}}
 			if g.pf.FailAnyK && g.r.Chance(0.6) {
-				w = &Cond{Cmps: []Cmp{{"k", ">=", r0.Vals[0]}}}
+				w = &Cond{Cmps: []Cmp{{"k", ">=", r0.Vals[t.ColIdx("k")]}}}
 			}
 			var v Val
 			if kind == "upd-size" {
@@ -897,8 +913,8 @@ func (g *gen) composeUpdate(t *MTable) string {
 	if len(t.Rows) > 0 && r.Chance(0.7) {
 		r0 := t.Rows[r.Intn(len(t.Rows))]
 		op := []string{">=", "=", "<=", "!="}[r.Intn(4)]
-		w = &Cond{Cmps: []Cmp{{"k", op, r0.Vals[0]}}}
-		where = fmt.Sprintf(" WHERE k %s %s", op, rawLit(r0.Vals[0]))
+		w = &Cond{Cmps: []Cmp{{"k", op, r0.Vals[t.ColIdx("k")]}}}
+		where = fmt.Sprintf(" WHERE k %s %s", op, rawLit(r0.Vals[t.ColIdx("k")]))
 	}
 	n := r.Range(1, 3)
 	var items []string
@@ -1348,8 +1364,8 @@ func (g *gen) genCont(m *Model, depth int) *Plan {
 func cellsEver(m *Model, t *MTable) int {
 	n := len(t.Rows)
 	for _, r := range t.Rows {
-		if int(r.Vals[0].I)+1 > n && r.Vals[0].K == "i" {
-			n = int(r.Vals[0].I) + 1
+		if v := r.Vals[t.ColIdx("k")]; int(v.I)+1 > n && v.K == "i" {
+			n = int(v.I) + 1
 		}
 	}
 	return n
